@@ -80,6 +80,7 @@ def describe_diff(assumed, observed_fns, path):
     """Human-readable list of what moved / appeared / disappeared, with source lines."""
     notes = []
     obs = {f["name"]: f["tokens"] for f in observed_fns}
+    files = {f["name"]: f.get("file") for f in observed_fns}
     for name in list(assumed) + [n for n in obs if n not in assumed]:
         a = assumed.get(name)
         o = obs.get(name)
@@ -110,7 +111,7 @@ def describe_diff(assumed, observed_fns, path):
                 what = "statement moved"
             else:
                 what = "statement not in the assumed shape (new or changed)"
-            notes.append(dict(function=name, what=what, statement=t["t"], at="%s:%d" % (path, t["line"]), token_index=k))
+            notes.append(dict(function=name, what=what, statement=t["t"], at="%s:%d" % (files.get(name) or path, t["line"]), token_index=k))
         new_txt = [t["t"] for _, t in new]
         for k, t in gone:
             if t in trivial or t in new_txt:
